@@ -5,6 +5,7 @@
 import PS.Model.Parse
 import PS.Model.Initialize
 import PS.Spec.Twins
+import PS.Model.Solver
 open PS
 
 structure Session where
@@ -14,6 +15,40 @@ def parseConfig (l : List Sexp) : Config :=
   let b (k : String) := match Sexp.field1? k l with | some v => (v.asBool?).getD false | none => false
   let s (k : String) (d : String) := match Sexp.field1? k l with | some v => (v.asStr?).getD d | none => d
   { debug := b "debug", optimize := b "optimize", priority := s "priority" "pareto" }
+
+/-- environment from an association list of printed variable names -/
+def envOf (ints : List (String × Int)) (bools : List (String × Bool)) : Env :=
+  { i := fun v => match ints.find? (·.1 == v.print) with | some e => e.2 | none => 0
+    b := fun v => match bools.find? (·.1 == v.print) with | some e => e.2 | none => false }
+
+def parseAnswer : Sexp → Option (Answer × Int)
+  | .list [.atom "unsat", d] => do some (.unsat, (← d.asInt?))
+  | .list [.atom "unknown", d] => do some (.unknown, (← d.asInt?))
+  | .list [.atom "sat", d, .list vals] => do
+      let ints := vals.filterMap (fun v => match v with
+        | .list [n, x] => match n.asStr?, x.asInt? with | some n, some x => some (n, x) | _, _ => none
+        | _ => none)
+      let bools := vals.filterMap (fun v => match v with
+        | .list [n, x] => match n.asStr?, x.asBool? with | some n, some x => some (n, x) | _, _ => none
+        | _ => none)
+      some (.sat (envOf ints bools), (← d.asInt?))
+  | _ => none
+
+def parseOp : Sexp → Option Op
+  | .atom "initialize" => some .init
+  | .atom "solve" => some .solve
+  | .atom "findAnother" => some .findAnother
+  | .atom "export" => some .exportSmt
+  | .list [.atom "findAnotherVar", v] => (parseIVar v).map Op.findAnotherVar
+  | _ => none
+
+def parseSConfig (l : List Sexp) : SConfig :=
+  let b (k : String) := match Sexp.field1? k l with | some v => (v.asBool?).getD false | none => false
+  let s (k : String) (d : String) := match Sexp.field1? k l with | some v => (v.asStr?).getD d | none => d
+  { debug := b "debug", optimize := b "optimize", priority := s "priority" "pareto",
+    logics := match Sexp.field1? "logics" l with | some (.atom "none") => none | some v => v.asStr? | none => none,
+    maxIter := match Sexp.field1? "max_iter" l with | some v => v.asNat? | none => none,
+    maxTime := match Sexp.field1? "max_time" l with | some v => (v.asInt?).getD 20 | none => 20 }
 
 def handle (ss : Session) (line : String) : Session × List String :=
   match Sexp.parse line with
@@ -25,6 +60,12 @@ def handle (ss : Session) (line : String) : Session × List String :=
         let cfg := parseConfig cfgl
         let fs := initializeO cfg ss.st
         (ss, ("(n " ++ toString fs.length ++ ")") :: fs.map (fun (o, f) => o.print ++ "\t" ++ f.print))
+    | .list [.atom "solver", .list cfgl, .list ops, .list answers] =>
+        let cfg := parseSConfig cfgl
+        let ops' := ops.filterMap parseOp
+        let ans := answers.filterMap parseAnswer
+        let s := runOps { cfg } ss.st ops' ans
+        (ss, ("(n " ++ toString s.trace.length ++ ")") :: s.trace.map Ev.print)
     | .list [.atom "spec", .atom which] =>
         let fs := match which with
           | "C01" => specC01 ss.st
